@@ -43,6 +43,15 @@ pub struct StreamSpec {
     pub stop_at: Option<u64>,
     /// delay before the opener starts
     pub start_us: u64,
+    /// wait this long before calling reset (reset_at reached) so that blocked/data frames are in flight
+    #[serde(default)]
+    pub reset_delay_us: u64,
+    /// call reset this long after finish() (0 = never)
+    #[serde(default)]
+    pub reset_after_finish_us: u64,
+    /// the reader waits this long before its first receive/stop call
+    #[serde(default)]
+    pub read_start_delay_us: u64,
 }
 
 #[derive(Clone, Debug, Serialize, Deserialize)]
